@@ -977,9 +977,24 @@ pub fn run_bounds_case(case: &BoundsCase) -> BoundsRun {
                 continue;
             };
             let (elo, ehi) = er[i];
+            // how much is cut off, relative to the value: a sliver (float rounding amplified
+            // through an extreme coefficient) or a macroscopic piece of the feasible set
+            let class_for = |published: f64, exact: Option<Q>| -> &'static str {
+                match exact {
+                    Some(q) if !integer => {
+                        let e = q.to_f64();
+                        if (published - e).abs() <= 1e-3 * e.abs().max(1.0) {
+                            "range-cuts-feasible-point:slight"
+                        } else {
+                            "range-cuts-feasible-point"
+                        }
+                    }
+                    _ => "range-cuts-feasible-point",
+                }
+            };
             if !contains_lo(plo, elo, integer) {
                 v(
-                    "range-cuts-feasible-point",
+                    class_for(plo, elo),
                     format!(
                         "{source}: published lower bound {plo} of `{}` (budget {:?}) but a source-feasible assignment has {} = {}",
                         var.name,
@@ -991,7 +1006,7 @@ pub fn run_bounds_case(case: &BoundsCase) -> BoundsRun {
             }
             if !contains_hi(phi, ehi, integer) {
                 v(
-                    "range-cuts-feasible-point",
+                    class_for(phi, ehi),
                     format!(
                         "{source}: published upper bound {phi} of `{}` (budget {:?}) but a source-feasible assignment has {} = {}",
                         var.name,
@@ -1378,7 +1393,7 @@ pub fn gen_src_model(rng: &mut Rng) -> (String, SrcModel) {
 }
 
 fn gen_src_model_once(rng: &mut Rng) -> (String, SrcModel) {
-    let shape = rng.weighted(&[27, 13, 23, 8, 9, 9, 8, 3]);
+    let shape = rng.weighted(&[26, 12, 22, 8, 9, 9, 8, 3, 5]);
     let inexact = rng.chance(1, 4);
     let n = rng.usize(2, 4);
     let names: Vec<String> = (0..n).map(|i| format!("v{i}")).collect();
@@ -1510,6 +1525,56 @@ fn gen_src_model_once(rng: &mut Rng) -> (String, SrcModel) {
             }
             "slow-convergence"
         }
+        8 => {
+            // one variable occurring several times in a row (both sides, or repeatedly on one
+            // side): ordinary coefficients, nearly cancelling huge ones, or decimals that
+            // cancel exactly but not in floating point
+            let x = 0usize;
+            let y = 1usize;
+            vars[x].dom = Dom::Real {
+                lo: Some(-(rng.range(2, 12) as f64)),
+                hi: Some(rng.range(2, 12) as f64),
+            };
+            let (c1, c2) = match rng.below(3) {
+                0 => (Dec::int(rng.range(2, 5)), Dec::int(rng.range(1, 4))),
+                1 => {
+                    let c = *rng.pick(&[2_000_000_000i64, 1_000_000_000, 500_000_000]);
+                    (Dec::int(c), Dec::int(c - rng.range(1, 3)))
+                }
+                _ => (Dec { n: 3, d: 2 }, Dec { n: 1, d: 2 }),
+            };
+            let k = SExp::Num(Dec::int(rng.range(-3, 6)));
+            let t1 = SExp::MulL(c1, Box::new(SExp::Var(x)));
+            let t2 = SExp::MulL(c2, Box::new(SExp::Var(x)));
+            // (A third variant, 0.1x + 0.2x - 0.3x, cancels exactly in decimal arithmetic but
+            // leaves a coefficient of 5.5e-17 in f64: whether x then "occurs" in the row is a
+            // question of reading, i.e. a tolerance-edge input that decides nothing. Not
+            // generated; see DESIGN.md section 9.)
+            match rng.below(2) {
+                // y + c1 x <= c2 x + k
+                0 => push(
+                    &mut cons,
+                    SExp::Add(Box::new(SExp::Var(y)), Box::new(t1)),
+                    cmp3(rng),
+                    SExp::Add(Box::new(t2), Box::new(k)),
+                ),
+                // y + c1 x - c2 x <= k
+                _ => push(
+                    &mut cons,
+                    SExp::Sub(
+                        Box::new(SExp::Add(Box::new(SExp::Var(y)), Box::new(t1))),
+                        Box::new(t2),
+                    ),
+                    cmp3(rng),
+                    k,
+                ),
+            }
+            if rng.chance(1, 2) {
+                let l2 = affine(rng, n, false, 2);
+                push(&mut cons, l2, cmp3(rng), rhs_const(rng, false));
+            }
+            "repeated-variable"
+        }
         7 => {
             // extreme coefficient magnitudes (1e-12 .. 1e10) on otherwise ordinary rows
             let c = *rng.pick(&[
@@ -1526,19 +1591,30 @@ fn gen_src_model_once(rng: &mut Rng) -> (String, SrcModel) {
                     Dom::Real { lo: Some(-1e6), hi: Some(1e6) },
                 ])
                 .clone();
-            vars[1].dom = rng
-                .pick(&[
+            // the scaled variable: ordinary range, or (for a tiny coefficient) a range wide
+            // enough for the tiny term to matter, as in a unit-conversion row
+            vars[1].dom = if c.d > 1 && rng.chance(1, 2) {
+                Dom::Real {
+                    lo: Some(0.0),
+                    hi: Some(2e12),
+                }
+            } else {
+                rng.pick(&[
                     Dom::Real { lo: Some(-1000.0), hi: Some(1000.0) },
                     Dom::Real { lo: None, hi: None },
                     Dom::NonNeg { lo: 0.0, hi: Some(500.0) },
                 ])
-                .clone();
+                .clone()
+            };
+            if matches!(vars[1].dom, Dom::Real { hi: Some(h), .. } if h > 1e9) {
+                vars[0].dom = Dom::Real { lo: None, hi: None };
+            }
             let scaled = match rng.below(3) {
                 0 => SExp::MulL(c, Box::new(SExp::Var(1))),
                 1 => SExp::MulR(Box::new(SExp::Var(1)), c),
                 _ => SExp::Div(Box::new(SExp::Var(1)), Dec { n: c.d, d: c.n.max(1) }),
             };
-            match rng.below(3) {
+            match rng.below(5) {
                 0 => push(&mut cons, scaled, cmp3(rng), SExp::Var(0)),
                 1 => push(
                     &mut cons,
@@ -1546,6 +1622,22 @@ fn gen_src_model_once(rng: &mut Rng) -> (String, SrcModel) {
                     cmp3(rng),
                     rhs_const(rng, false),
                 ),
+                // the extreme term as the SECOND operand, or on the right-hand side
+                2 => push(
+                    &mut cons,
+                    SExp::Add(Box::new(SExp::Var(0)), Box::new(scaled)),
+                    cmp3(rng),
+                    rhs_const(rng, false),
+                ),
+                3 => {
+                    let base = if n > 2 { SExp::Var(2) } else { rhs_const(rng, false) };
+                    push(
+                        &mut cons,
+                        SExp::Var(0),
+                        cmp3(rng),
+                        SExp::Add(Box::new(base), Box::new(scaled)),
+                    )
+                }
                 _ => push(
                     &mut cons,
                     SExp::Var(0),
